@@ -191,6 +191,9 @@ def execute(wd, sc):
             continue
         wd.probes["c15.path_checked"] += 1
         wd.probes["c15.nd_path_checked"] += 1
+        from .c15 import _transport
+
+        _transport(add, path, cls)
         draws = wd.draws[d0:]
         times = np.array(path.times(), dtype=float)
         diff = np.array(path.diffusion_path, dtype=float)
